@@ -17,6 +17,9 @@ package quic
 //   stream.go flushLocked: `min(s.outwin, s.out.end)` -> `s.out.end`                             caught by VerifC20_send
 //   conn_flow.go handleStreamBytesReceived: `usedLimit > sentLimit` -> `> sentLimit+1`            caught by VerifC20_recv
 //   stream.go handleMaxStreamData: `maxStreamData <= s.outwin` -> `==` (window may shrink)        caught by VerifC20_window
+//   seeded C20-B: conn_streams.go streamForFrame: `s.outwin = peerInitialMaxStreamDataBidiLocal` ->
+//     `peerInitialMaxStreamDataRemote[bidiStream]` (peer-opened stream takes the limit meant for our streams)
+//     caught by VerifC20_initwin (quick) and by the peer-origin runs of VerifC20_send/_resend (thorough)
 
 import (
 	"context"
@@ -27,6 +30,7 @@ func init() {
 	vfRegister("VerifC20_send", VerifC20_send)
 	vfRegister("VerifC20_resend", VerifC20_resend)
 	vfRegister("VerifC20_two", VerifC20_two)
+	vfRegister("VerifC20_initwin", VerifC20_initwin)
 	vfRegister("VerifC20_recv", VerifC20_recv)
 	vfRegister("VerifC20_window", VerifC20_window)
 	vfRegister("VerifC20_bounds", VerifC20_bounds)
@@ -211,19 +215,49 @@ type qsSender struct {
 }
 
 func qsNewSender(outmaxbuf, win0, maxdata0 int64, nstreams int) *qsSender {
+	return qsNewSenderFrom(qsOriginLocal, outmaxbuf, win0, maxdata0, nstreams)
+}
+
+// Who opened the streams of a qsSender. The peer states three different initial per-stream limits in its transport
+// parameters (RFC 9000 18.2): initial_max_stream_data_bidi_remote / _uni govern the streams the endpoint opens,
+// initial_max_stream_data_bidi_local the bidirectional streams the peer opens. The limit that governs the sender's
+// streams is win0; the others are set to a larger decoy, so that taking the window from the wrong parameter shows
+// up as data beyond the peer's limit.
+const (
+	qsOriginLocal = iota // streams opened by the endpoint (bidirectional, then unidirectional)
+	qsOriginPeer         // bidirectional streams opened by the peer, created by the real Conn.streamForFrame
+)
+
+func qsNewSenderFrom(origin int, outmaxbuf, win0, maxdata0 int64, nstreams int) *qsSender {
 	cfg := &Config{MaxStreamWriteBufferSize: outmaxbuf, MaxStreamReadBufferSize: 4}
 	c := qsConn(clientSide, cfg)
 	c.streams.outflow.setMaxData(maxdata0)
-	c.streams.peerInitialMaxStreamDataRemote[bidiStream] = win0
-	c.streams.peerInitialMaxStreamDataRemote[uniStream] = win0
+	decoy := win0 + 3
+	if origin == qsOriginLocal {
+		c.streams.peerInitialMaxStreamDataRemote[bidiStream] = win0
+		c.streams.peerInitialMaxStreamDataRemote[uniStream] = win0
+		c.streams.peerInitialMaxStreamDataBidiLocal = decoy
+	} else {
+		c.streams.peerInitialMaxStreamDataRemote[bidiStream] = decoy
+		c.streams.peerInitialMaxStreamDataRemote[uniStream] = decoy
+		c.streams.peerInitialMaxStreamDataBidiLocal = win0
+	}
 	ctx := qsCancelled()
 	w := &qsSender{c: c, connMax: maxdata0, maxLen: 2}
 	for i := 0; i < nstreams; i++ {
-		styp := bidiStream
-		if i == 1 {
-			styp = uniStream
+		var s *Stream
+		if origin == qsOriginLocal {
+			styp := bidiStream
+			if i == 1 {
+				styp = uniStream
+			}
+			s = qsLocalStream(c, styp, 0)
+		} else {
+			// the first frame the peer sends for its i'th bidirectional stream creates it
+			id := newStreamID(serverSide, bidiStream, int64(i))
+			s = c.streamForFrame(time.Time{}, id, recvStream)
+			vfAssert(s != nil && s.id == id, "streamForFrame creates the peer's stream")
 		}
-		s := qsLocalStream(c, styp, 0)
 		s.SetWriteContext(ctx)
 		s.SetReadContext(ctx)
 		w.gs = append(w.gs, &qsSendGhost{s: s, limit: win0})
@@ -377,7 +411,19 @@ func (w *qsSender) do(m qsAlt) int {
 // observe checks the frames of one emitted packet against the ghosts: this is the wire-level statement of
 // C20 (limits), C32 (reset) and the sender half of C19 (content).
 func (w *qsSender) observe(frames []qsFrame) {
+	// STREAM frames first (the statements of C20/C32/C19 are about them), then the other frames of the packet
+	var order []qsFrame
 	for _, f := range frames {
+		if f.typ == frameTypeStreamBase {
+			order = append(order, f)
+		}
+	}
+	for _, f := range frames {
+		if f.typ != frameTypeStreamBase {
+			order = append(order, f)
+		}
+	}
+	for _, f := range order {
 		switch f.typ {
 		case frameTypeStreamBase:
 			g := w.ghost(f.id)
@@ -442,7 +488,11 @@ func VerifC20_send() {
 	}
 	win0 := int64(vfChoice("win0", 2) * 2)         // 0, 2
 	maxdata0 := int64(vfChoice("maxdata0", 2) * 3) // 0, 3
-	w := qsNewSender(outmaxbuf, win0, maxdata0, 1)
+	origin := qsOriginLocal
+	if vfTier() > 0 {
+		origin = vfChoice("origin", 2) // thorough: also on a stream the peer opened (quick: VerifC20_initwin)
+	}
+	w := qsNewSenderFrom(origin, outmaxbuf, win0, maxdata0, 1)
 	w.prune = true
 	w.msd = []int64{1, 3, 6}
 	w.md = []int64{2, 6}
@@ -467,7 +517,11 @@ func VerifC20_send() {
 // retransmission, PTO probes and window growth interleave within the step bound.
 func VerifC20_resend() {
 	k := 4
-	w := qsNewSender(4, 2, 3, 1)
+	origin := qsOriginLocal
+	if vfTier() > 0 {
+		origin = vfChoice("origin", 2) // thorough: also on a bidirectional stream the peer opened
+	}
+	w := qsNewSenderFrom(origin, 4, 2, 3, 1)
 	w.prune = true
 	w.msd = []int64{3, 6}
 	w.md = []int64{4, 8}
@@ -532,6 +586,100 @@ func VerifC20_two() {
 	}
 	if w.gs[0].maxSent+w.gs[1].maxSent == w.connMax && w.connMax > 0 && (len(w.gs[0].data) > int(w.gs[0].maxSent) || len(w.gs[1].data) > int(w.gs[1].maxSent)) {
 		vfReach("conn-limit-binds")
+	}
+	vfReach("end")
+}
+
+// VerifC20_initwin: where a stream's FIRST send window comes from. The peer's transport parameters carry three
+// per-stream limits with three different values; they are installed by the real Conn.receiveTransportParameters.
+// Streams of every origin are then created by the real code: Conn.NewStream / NewSendOnlyStream (the conn's loop is a
+// second goroutine that runs the posted function) and Conn.streamForFrame for a bidirectional stream opened by the
+// peer (first frame of either direction). More bytes than any limit are written and flushed; ordinary packets, a PTO
+// probe and one MAX_STREAM_DATA update follow. qsSender.observe asserts that no STREAM frame passes the limit the
+// PEER attached to this kind of stream (RFC 9000 18.2) or the largest MAX_STREAM_DATA since.
+func VerifC20_initwin() {
+	side := clientSide
+	if vfBool("server") {
+		side = serverSide
+	}
+	cfg := &Config{MaxStreamWriteBufferSize: 8, MaxStreamReadBufferSize: 4}
+	c := qsConn(side, cfg)
+	c.endpoint = &Endpoint{}
+	cid := []byte{0xc1}
+	c.connIDState.remote = []remoteConnID{{connID: connID{seq: 0, cid: cid}}}
+	// three different limits, in any order
+	vals := [][3]int64{{1, 2, 3}, {1, 3, 2}, {2, 1, 3}, {2, 3, 1}, {3, 1, 2}, {3, 2, 1}, {0, 2, 4}, {4, 0, 2}, {2, 4, 0}}
+	v := vals[vfChoice("limits", len(vals))]
+	p := transportParameters{
+		initialMaxData:                 16,
+		initialMaxStreamsBidi:          1,
+		initialMaxStreamsUni:           1,
+		initialMaxStreamDataBidiLocal:  v[0], // bidirectional streams opened by the sender of the parameters (the peer)
+		initialMaxStreamDataBidiRemote: v[1], // bidirectional streams opened by the receiver of the parameters (us)
+		initialMaxStreamDataUni:        v[2], // unidirectional streams opened by us
+		ackDelayExponent:               defaultParamAckDelayExponent,
+		initialSrcConnID:               cid,
+	}
+	err := c.receiveTransportParameters(p)
+	vfAssert(err == nil, "consistent transport parameters are accepted")
+	ctx := qsCancelled()
+	var s *Stream
+	var limit int64
+	peerID := newStreamID(side.peer(), bidiStream, 0)
+	kind := vfChoice("stream", 4)
+	switch kind {
+	case 0, 1: // opened by us through the public API; the loop goroutine runs the registration posted by newLocalStream
+		vfGo(func() {
+			for {
+				if f, ok := (<-c.msgc).(func(time.Time, *Conn)); ok {
+					f(time.Time{}, c)
+					return
+				}
+			}
+		})
+		var err error
+		if kind == 0 {
+			s, err = c.NewStream(context.Background())
+			limit = v[1]
+		} else {
+			s, err = c.NewSendOnlyStream(context.Background())
+			limit = v[2]
+		}
+		vfAssert(err == nil && s != nil, "a stream within the peer's MAX_STREAMS is opened")
+		vfAssert(c.streams.streams[s.id].s == s, "the new stream is registered with the conn")
+		vfReach("opened-locally")
+	case 2: // opened by the peer: its first frame is a STREAM/RESET_STREAM/STREAM_DATA_BLOCKED frame ...
+		s = c.streamForFrame(time.Time{}, peerID, recvStream)
+		limit = v[0]
+		vfReach("opened-by-peer")
+	case 3: // ... or a MAX_STREAM_DATA/STOP_SENDING frame
+		s = c.streamForFrame(time.Time{}, peerID, sendStream)
+		limit = v[0]
+		vfReach("opened-by-peer")
+	}
+	vfAssert(s != nil, "the stream exists")
+	s.SetWriteContext(ctx)
+	s.SetReadContext(ctx)
+	w := &qsSender{c: c, connMax: 16, maxLen: 2}
+	w.gs = []*qsSendGhost{{s: s, limit: limit}}
+	w.msd = []int64{1, 3, 5}
+	w.avails = []int{20}
+	n := 5 // more than any initial limit
+	vfAssert(w.do(qsAlt{qsOpWrite, 0, n}) == qsOpWrite && len(w.gs[0].data) == n, "the write buffer takes the bytes")
+	w.do(qsAlt{qsOpFlush, 0, 0})
+	w.do(qsAlt{qsOpEmit, 0, 0})
+	vfObserve("sent-under-initial-limit", uint64(w.gs[0].maxSent))
+	if w.gs[0].maxSent == limit && limit > 0 {
+		vfReach("initial-window-used-up")
+	}
+	w.do(qsAlt{qsOpMaxStreamData, 0, vfChoice("msd", len(w.msd))}) // stale, equal or larger than the initial limit
+	if vfBool("probe") {
+		w.do(qsAlt{qsOpEmitPTO, 0, 0})
+	}
+	w.do(qsAlt{qsOpEmit, 0, 0})
+	vfObserve("sent", uint64(w.gs[0].maxSent))
+	if w.gs[0].maxSent > limit {
+		vfReach("window-grown")
 	}
 	vfReach("end")
 }
